@@ -470,9 +470,6 @@ func (w *world) run(backend string, hist []int) hx.Outcome {
 		counts[evStore(ev)]++
 	}
 	for x := range storeNames {
-		if counts[1-x] == 0 {
-			continue // H restricted to x is H itself
-		}
 		want, ok := w.alone(backend, x, restrict(hist, x))
 		if !ok {
 			devs = append(devs, hx.Dev{Sig: "restricted-history-not-reproducible", Desc: fmt.Sprintf("store %s alone gives different transcripts in repeated executions", storeNames[x])})
@@ -528,7 +525,7 @@ func Run(o *core.Options) int {
 	}
 
 	type cfg struct {
-		backend          string
+		backend         string
 		perStore, total int
 	}
 	cfgs := []cfg{{hx.Memory, 3, 4}, {hx.SQLite, 3, 3}}
